@@ -4,7 +4,7 @@
    cs over every segmentation. *)
 From Coq Require Import List Arith NArith Bool Lia.
 Import ListNotations.
-Require Import FV.Gen.C07 FV.C07.Model FV.C07.Lemmas FV.C07.Utf8 FV.C07.Wellformed FV.C07.Codec FV.C07.Repl FV.C07.Echo.
+Require Import FV.Gen.C07 FV.C07.Model FV.C07.Run FV.C07.Lemmas FV.C07.Utf8 FV.C07.Enc FV.C07.Wellformed FV.C07.Codec FV.C07.Repl FV.C07.Echo.
 Local Open Scope N_scope.
 
 (* obligations on the facts regenerated from /repo (Gen/C07.v) *)
@@ -23,7 +23,11 @@ Theorem C07_source_facts :
   (* the name the identification request is mapped to is itself one of the guarded internal names *)
   alias_is_internal = true /\
   (* all constants that end up in frames are encodable text without line terminator *)
-  consts_good = true.
+  consts_good = true /\
+  (* the data text of a frame is json.dumps(data) with ensure_ascii left at its default (printable ASCII), encoded by a
+     plain .encode('utf-8'); the constant parts of the data texts (error names, help text) are printable ASCII, action
+     constants are scalar values *)
+  dumps_ascii_only = true /\ consts_q scalar = true /\ consts_q printable = true.
 Proof. repeat split; reflexivity. Qed.
 
 Local Definition HT : crash_free_table = true := eq_refl.
@@ -31,21 +35,30 @@ Local Definition HA : alias_not_help = true := eq_refl.
 Local Definition HM : handlers_match_table = true := eq_refl.
 Local Definition HN : names_closed = true := eq_refl.
 Local Definition HI : alias_is_internal = true := eq_refl.
+Local Definition HCs : consts_q scalar = true := eq_refl.
+Local Definition HCa : consts_q printable = true := eq_refl.
+
+(* Premise env_enc E of the theorems about the request loop as a whole: the texts the oracles supply (json.dumps output,
+   error texts, data of messages handlers sent) consist of scalar values, i.e. str.encode accepts them.  A str can hold
+   lone surrogates (json.loads makes one from the ASCII escape \ud800); encode_msg_frame raises on them, outside of any
+   try block of the request loop (Model.send_seq, C07_unencodable_reply_terminates).  json.dumps with ensure_ascii
+   (fact dumps_ascii_only) returns printable ASCII whatever the value holds: env_ascii E, which implies env_enc E
+   (C07_reply_ascii_data); check_case evaluates that law on every recorded case (C07_case_law). *)
 
 (* any chunking: the state of the connection (buffer, replies sent, handler calls made) after receiving a byte
    stream does not depend on where the stream was cut into segments - at any point of any history *)
-Theorem C07_chunking : forall E evs0 cs cs', concat cs = concat cs' ->
+Theorem C07_chunking : forall E evs0 cs cs', env_enc E -> concat cs = concat cs' ->
   run E (serve E evs0) (map Chunk cs) = run E (serve E evs0) (map Chunk cs').
-Proof. intros; apply (chunking HT HA); assumption. Qed.
+Proof. intros E evs0 cs cs' HE H; apply (chunking HT HA E (enc_lines E HCs HE)); assumption. Qed.
 
 (* the request loop works line by line: whatever the segmentation, exactly the complete (newline terminated) lines
    of the stream are processed, in order, each once, and the unterminated rest stays in the buffer;
    lines_of is characterised by C07_lines_of_spec *)
-Theorem C07_line_by_line : forall E evs0 cs,
+Theorem C07_line_by_line : forall E evs0 cs, env_enc E ->
   let st := serve E evs0 in
   run E st (map Chunk cs) =
   let '(ls, r) := lines_of (buf st ++ concat cs) in set_buf (fold_left (process E) ls st) r.
-Proof. intros; apply (serve_lines HT HA). Qed.
+Proof. intros E evs0 cs HE; apply (serve_lines HT HA E (enc_lines E HCs HE)). Qed.
 
 Theorem C07_lines_of_spec : forall bs,
   let '(ls, r) := lines_of bs in
@@ -61,17 +74,32 @@ Proof. intros; apply split_lines_spec; apply Nat.lt_succ_diag_r. Qed.
    - for an undecodable line: error_<f0> with specifier f1 and class InternalError, f0 f1 being the first fields of
      the STRIPPED raw line read as UTF-8 with replacement (since the repairs b6f37c1, a2736c5; C07_decode_error_echo
      states that these are action and specifier of the request) *)
-Theorem C07_one_reply_per_line : forall E st line,
+Theorem C07_one_reply_per_line : forall E st line, env_enc E ->
   exists pre r c, answer E (nline st) line = (OReply pre r, c) /\
     output (process E st line) = output st ++ frames pre ++ [encode_frame r] /\
     nline (process E st line) = S (nline st) /\
     alive (process E st line) = alive st /\
     reply_ok E (nline st) line r.
 Proof.
-  intros E st line. destruct (answer_no_crash HT HA E (nline st) line) as [pre [r [c H]]].
-  exists pre, r, c. split; [exact H|]. split; [eapply process_output; exact H|].
-  split; [apply process_nline|]. split; [apply (process_alive HT HA)|].
+  intros E st line HE. destruct (answer_no_crash HT HA E (nline st) line) as [pre [r [c H]]].
+  exists pre, r, c. split; [exact H|]. split; [eapply process_output; [exact H|exact (enc_lines E HCs HE _ _ _ _ _ H)]|].
+  split; [apply process_nline|]. split; [apply (process_alive HT HA E (enc_lines E HCs HE))|].
   eapply (answer_classified HM HN HI); exact H.
+Qed.
+
+(* without the premise, for EVERY oracle: a request line is answered by exactly one reply message r with reply_ok (the
+   request loop builds it); what can go wrong afterwards is only its encoding - if r holds a code point str.encode
+   rejects, the messages before it are sent, r is not, and the exception leaves the request loop (alive = false):
+   this line and all later lines stay unanswered.  That is what a json.dumps(ensure_ascii=False) in encode_msg_frame
+   does with a request like  change m:_utxt "\ud800" *)
+Theorem C07_unencodable_reply_terminates : forall E st line,
+  exists pre r c, answer E (nline st) line = (OReply pre r, c) /\ reply_ok E (nline st) line r /\
+    (forallb encodable pre = true -> encodable r = false ->
+     output (process E st line) = output st ++ frames pre /\ alive (process E st line) = false).
+Proof.
+  intros E st line. destruct (answer_no_crash HT HA E (nline st) line) as [pre [r [c H]]].
+  exists pre, r, c. split; [exact H|]. split; [eapply (answer_classified HM HN HI); exact H|].
+  intros Hp Hr. eapply process_unencodable; eassumption.
 Qed.
 
 (* internal handler names are no requests (repair bfc762a; was the finding ident-alias): an action that starts with '_'
@@ -133,8 +161,44 @@ Proof. vm_compute. split; reflexivity. Qed.
 
 (* no input terminates the connection handler: after any history the loop is still running and the buffer
    holds no complete line *)
-Theorem C07_never_terminates : forall E evs, alive (serve E evs) = true /\ get_msg (buf (serve E evs)) = None.
-Proof. intros; apply (serve_inv HT HA). Qed.
+Theorem C07_never_terminates : forall E evs, env_enc E ->
+  alive (serve E evs) = true /\ get_msg (buf (serve E evs)) = None.
+Proof. intros E evs HE; apply (serve_inv HT HA E (enc_lines E HCs HE)). Qed.
+
+(* ASCII in, ASCII out: when json.dumps returns printable ASCII (its behaviour with ensure_ascii, the default; fact
+   dumps_ascii_only) - whatever characters the dumped VALUES hold, lone surrogates included - then, after any history of
+   received segments (arbitrary bytes, arbitrary cuts) and messages of other threads, the handler loop is alive and every
+   frame handed to sendall is the encoding of a message whose data part is printable ASCII and which str.encode accepts;
+   in particular env_ascii implies the premise env_enc of the theorems above *)
+Theorem C07_reply_ascii_data : forall E evs, env_ascii E -> Forall ev_ascii evs ->
+  env_enc E /\ alive (serve E evs) = true /\
+  Forall (fun f => exists m, f = encode_frame m /\ qostr printable (snd m) = true /\ encodable m = true)
+         (out (serve E evs)).
+Proof.
+  intros E evs HE Hev. split; [exact (env_ascii_enc E HE)|].
+  split; [apply (serve_alive HT HA E (enc_lines E HCs (env_ascii_enc E HE)))|exact (ascii_frames E evs HCa HE Hev)].
+Qed.
+
+(* the law is evaluated by check_case on every recorded case: a case that passes has an environment and a history that
+   satisfy the premises of C07_reply_ascii_data *)
+Theorem C07_case_law : forall chunks json lines o_out o_calls o_rest o_alive,
+  check_case (CStream chunks json lines o_out o_calls o_rest o_alive) = true ->
+  env_ascii (mk_env json lines) /\ Forall ev_ascii chunks.
+Proof.
+  intros chunks json lines o_out o_calls o_rest o_alive H. cbn [check_case] in H.
+  apply andb_true_iff in H. destruct H as [H H2]. apply andb_true_iff in H. destruct H as [_ H1].
+  split; [apply case_env_ascii; exact H1|apply case_events_ascii; exact H2].
+Qed.
+
+(* non-vacuity of the crash: the handler of line 0 returns data whose json text holds the lone surrogate U+D800 (what
+   json.dumps(.., ensure_ascii=False) returns for it): nothing is sent, the loop is dead, the second line is never read *)
+Definition crashE : env :=
+  {| e_json := fun _ => None;
+     e_line := fun i => {| lo_h := HOk (Some [34; 55296; 34]) []; lo_err := [34; 34] |} |}.
+Example C07_crash_demo :
+  let st := serve crashE [Chunk [112; 105; 110; 103; 32; 120; 10; 112; 105; 110; 103; 32; 121; 10]] in
+  output st = [] /\ alive st = false /\ nline st = 1%nat /\ buf st = [112; 105; 110; 103; 32; 121; 10].
+Proof. vm_compute. repeat split; reflexivity. Qed.
 
 (* every frame handed to sendall - replies, error replies to arbitrary bytes, events sent by other threads - is exactly
    one line: UTF-8 text that decodes back to itself, without a line terminator inside, followed by the terminator.
@@ -191,6 +255,9 @@ Print Assumptions C07_decode_error_echo_text.
 Print Assumptions C07_decode_error_echo_replaced.
 Print Assumptions C07_replace_decoder.
 Print Assumptions C07_never_terminates.
+Print Assumptions C07_unencodable_reply_terminates.
+Print Assumptions C07_reply_ascii_data.
+Print Assumptions C07_case_law.
 Print Assumptions C07_isolation.
 Print Assumptions C07_codec_inverse.
 Print Assumptions C07_lines_wellformed.
